@@ -157,3 +157,143 @@ def oracle(case):
         if not ok:
             fails.append(dict(clause="api-option", detail="option path %s disagrees with the reference path of the same code on %r %s" % (name, case["rsmi"], detail)))
     return fails[:3]
+
+
+# ------------------------------------------------------------------ construct(node_attrs=L) + positional its_decompose (model/C01_Attrs.v)
+# case = {"kind": "attrs", "G": json, "H": json, "attrs": [names]}
+
+KEYS = {"element": "KEl", "aromatic": "KAr", "hcount": "KHc", "charge": "KCh", "neighbors": "KNb", "atom_map": "KAm"}
+
+
+def _aval(v):
+    if v is None:
+        return [4]
+    if isinstance(v, bool):
+        return [1, v]
+    if isinstance(v, str):
+        return [0, E.elem_code(v)]
+    if isinstance(v, (list, tuple)):
+        return [3, [E.elem_code(x) for x in v]]
+    return [2, E._int(v)]
+
+
+def obs_attrs(case):
+    from ..tok import S
+    from synkit.Graph.ITS.its_construction import ITSConstruction
+    from synkit.Graph.ITS.its_decompose import its_decompose
+    G, H = E.to_nx(case["G"]), E.to_nx(case["H"])
+    J = ITSConstruction.construct(G, H, balance_its=False, store=False, node_attrs=list(case["attrs"]))
+    ns = [[n, [_aval(x) for x in d["typesGH"][0]], [_aval(x) for x in d["typesGH"][1]]] for n, d in J.nodes(data=True)]
+    es = []
+    for u, v, d in J.edges(data=True):
+        es.append([min(u, v), max(u, v), E.half(d["order"][0]), E.half(d["order"][1]), E.half(d["standard_order"])])
+    try:
+        g, h = its_decompose(J)
+        dec = []
+        for X in (g, h):
+            xs = [[n, _aval(d["element"]), _aval(d["aromatic"]), _aval(d["hcount"]), _aval(d["charge"])] + ([] if d.get("atom_map") == n else ["atom_map!=id"])
+                  for n, d in X.nodes(data=True)]
+            dec.append([S(xs), S([[min(u, v), max(u, v), E.half(d["order"])] for u, v, d in X.edges(data=True)])])
+    except IndexError:
+        dec = []
+    return [S(ns), S(es), dec]
+
+
+def coq_attrs(case):
+    ks = "; ".join(KEYS.get(a, "KOther") for a in case["attrs"])
+    return "run_attrs [%s] %s %s" % (ks, E.coq_mgraph(case["G"]), E.coq_mgraph(case["H"]))
+
+
+def oracle_attrs(case, graph_eq, balanced_pair):
+    """the property's round trip is demanded when the caller's list starts with the legacy order (its_decompose's convention)"""
+    from synkit.Graph.ITS.its_construction import ITSConstruction
+    from synkit.Graph.ITS.its_decompose import its_decompose
+    if case["attrs"][:4] != ["element", "aromatic", "hcount", "charge"]:
+        return []
+    G, H = E.to_nx(case["G"]), E.to_nx(case["H"])
+    if not balanced_pair(G, H):
+        return []
+    J = ITSConstruction.construct(E.to_nx(case["G"]), E.to_nx(case["H"]), balance_its=False, store=False, node_attrs=list(case["attrs"]))
+    g, h = its_decompose(J)
+    fails = []
+    graph_eq("reactant", G, g, fails)
+    graph_eq("product", H, h, fails)
+    for f in fails:
+        f["clause"] = "attrs-" + f["clause"]
+        f["detail"] = "node_attrs=%r: %s" % (case["attrs"], f["detail"])
+    return fails[:2]
+
+
+def gen_attrs(pairs, rng, count):
+    six = ["element", "aromatic", "hcount", "charge", "neighbors", "atom_map"]
+    cases = []
+    for k in range(count):
+        p = pairs[k % len(pairs)]
+        z = rng.random()
+        if z < 0.3:
+            at = six[:4] + rng.sample(six[4:] + ["radical"], rng.randint(0, 3))
+        elif z < 0.45:
+            at = sorted(six)
+        elif z < 0.75:
+            at = rng.sample(six, rng.randint(4, 6))
+        elif z < 0.9:
+            at = rng.sample(six + ["radical"], rng.randint(0, 3))            # shorter than four: its_decompose raises IndexError
+        else:
+            at = rng.sample(six, 5) + [rng.choice(six)]
+        cases.append(dict(kind="attrs", G=p["G"], H=p["H"], attrs=at))
+    return cases
+
+
+# ------------------------------------------------------------------ clean_wc / its_to_rsmi(clean_wildcards=True)  (model/C01_CleanWc.v)
+# case = {"kind": "cwc", "react": str, "prod": str, "via_its": rsmi|None}
+
+def obs_cwc(case):
+    from synkit.Chem.Reaction.radical_wildcard import clean_wc
+    out = clean_wc(case["react"] + ">>" + case["prod"])
+    parts = out.split(">>")
+    if len(parts) != 2:
+        return ["not-a-reaction", out]
+    res = [parts[0], parts[1]]
+    if case.get("via_its"):
+        # the option of its_to_rsmi is clean_wc applied to the default output
+        import synkit.IO.chem_converter as cc
+        I = cc.rsmi_to_its(case["via_its"])
+        a = cc.its_to_rsmi(I)
+        b = cc.its_to_rsmi(I, clean_wildcards=True)
+        if a is None or b != clean_wc(a):
+            res.append("its_to_rsmi(clean_wildcards=True) is not clean_wc(its_to_rsmi(...))")
+    return res
+
+
+def coq_cwc(case):
+    from ..coqrun import cstr
+    if any(not (32 <= ord(c) < 127) for c in case["react"] + case["prod"]):
+        return None
+    return "run_cwc %s %s" % (cstr(case["react"]), cstr(case["prod"]))
+
+
+def gen_cwc(rsmis, rng, count):
+    cases = []
+    stars = ["[*:99]", "*", "[*:98]C", "C[*:97]CCCCCCCCCCCCCCCCCCCCCCCCCCCCCCCCCC", "[*]"]
+    for k in range(count):
+        r = rsmis[k % len(rsmis)]
+        if r.count(">>") != 1:
+            continue
+        a, b = r.split(">>")
+        fr = b.split(".")
+        z = rng.random()
+        if z < 0.35:
+            fr.insert(rng.randrange(len(fr) + 1), rng.choice(stars))
+        elif z < 0.5:
+            fr = [f + rng.choice(stars) if rng.random() < 0.7 else f for f in fr]
+        elif z < 0.6:
+            fr = [rng.choice(stars) for _ in fr]
+        elif z < 0.7:
+            fr = fr + [fr[0]]                      # two fragments of equal length: the first one wins
+        elif z < 0.75:
+            fr = [""] + fr
+        rng.shuffle(fr)
+        cases.append(dict(kind="cwc", react=a, prod=".".join(fr), via_its=(r if k % 7 == 0 else None)))
+    cases += [dict(kind="cwc", react="", prod=""), dict(kind="cwc", react="A", prod="*"), dict(kind="cwc", react="A.B", prod="C.D"),
+              dict(kind="cwc", react="A", prod="CC.OO.N"), dict(kind="cwc", react="A", prod="..")]
+    return cases
